@@ -37,7 +37,7 @@ func walkCheck(id string, fam *e1.Family, tier common.Tier) int {
 					if b.Encl == e1.EFillerType || b.Encl == e1.EFillerVar {
 						continue
 					}
-					for wr := e1.WNone; wr <= e1.WBlock; wr++ {
+					for wr := e1.WNone; wr < e1.NumWrappers(); wr++ {
 						if b.Encl == e1.EPkgVarDirect && wr != e1.WNone {
 							continue
 						}
